@@ -433,6 +433,41 @@ def tdf_double_read_case(kind):
     return h
 
 
+def tdf_absent_read_case(kind):
+    """Whatever a convenience getter hands out for a file that has no such block (today: an
+    exception) is not shared between files or reads: editing it never shows up in a later read."""
+    def h(I):
+        I.fresh_modules()
+        from . import e2e
+        fs = I.fs()
+        Tdf = I.mod("basictdf").Tdf
+        for name in ("a.tdf", "b.tdf"):
+            spec = {"n": 3, "version": 1, "hdates": [0, 0, 0], "slots": [{"type": 0, "format": 0, "size": 0, "dates": [0, 0, 0], "comment": "x"} for _ in range(3)]}
+            fs.create(name, spec)
+        getter = e2e.KIND_GETTER[kind]
+
+        def read(name):
+            try:
+                return getattr(Tdf(fs.path(name)), getter), None
+            except Exception as e:  # noqa: BLE001
+                return None, e
+        r1, e1 = read("a.tdf")
+        I.observe("first", type(e1).__name__ if e1 else type(r1).__name__)
+        if r1 is not None and not isinstance(r1, (bool, int, str)):
+            enc1 = B.encode(I, r1)
+            if kind == "events":
+                r1.events.append(_track(I, "events", "x1"))
+            else:
+                r1.addSignal(_track(I, "emg", "x1", n=int(getattr(r1, "nSamples", 0) or 0)))
+            for name in ("b.tdf", "a.tdf"):
+                r2, e2 = read(name)
+                I.prove(f"C20.tdf.{kind}.absent_block_reads_do_not_share_an_object", r2 is not r1, name)
+                if r2 is not None:
+                    I.prove(f"C20.tdf.{kind}.absent_block_read_unaffected_by_edits_of_an_earlier_one", B.encode(I, r2) == enc1, name)
+        I.goal("done")
+    return h
+
+
 ALL = dict(SPEC)
 ALL.update(SPEC_EXTRA)
 
@@ -441,6 +476,7 @@ def instances(tier):
     out = []
     for kind in ("events", "emg"):
         out.append(Instance(f"tdf.double_read.{kind}", tdf_double_read_case(kind), goals=["done"], cost=20))
+        out.append(Instance(f"tdf.absent_read.{kind}", tdf_absent_read_case(kind), goals=["done"], cost=5))
     for cls, spec in ALL.items():
         for m in ["add", "edit"] + (["remove"] if spec["remove"] else []) + ([] if tier == "quick" else ["add_edit_remove"]):
             if cls == "calib" and m == "edit":
